@@ -126,7 +126,8 @@ class SrcGen:
         if k == 8:
             return self.expr(d - 1, 7, depth) + "[" + self.expr(d - 1, 0, depth) + "]" if self.r.below(2) else self.pick(NAMES) + "." + self.pick(["f", "g", "len"])
         if k == 9:
-            return "(" + self.expr(d - 1, 0, depth) + ")"
+            n = 1 + (self.r.below(3) == 0) + (self.r.below(9) == 0)      # sometimes doubled / tripled parentheses
+            return "(" * n + self.expr(d - 1, 0, depth) + ")" * n
         if k == 10:
             n = self.r.below(4)
             return "[" + ", ".join(self.expr(d - 1, 0, depth) for _ in range(n)) + "]"
@@ -212,7 +213,10 @@ class SrcGen:
                 return "\n" + t + "%s := func() { %s%s }\n" % (self.pick(NAMES), self.pick(["", "y() ", "/* a */ y(); "]), _com(n))
             return t + "%s++\n" % self.pick(NAMES)
         if k == 11 and d > 0:
-            return t + "switch %s {\n%scase 1, 2:\n%s%sdefault:\n%s%s}\n" % (self.pick(NAMES), t, self.block(d - 1, ind + "\t"), t, self.block(d - 1, ind + "\t"), t)
+            self.nlabel = getattr(self, "nlabel", 0) + 2
+            l1 = "%sL%d: ;\n" % (t, self.nlabel) if self.r.below(3) == 0 else ""     # a labeled empty statement closing a clause
+            l2 = "%sL%d:\n" % (t, self.nlabel + 1) if self.r.below(4) == 0 else ""
+            return t + "switch %s {\n%scase 1, 2:\n%s%s%sdefault:\n%s%s%s}\n" % (self.pick(NAMES), t, self.block(d - 1, ind + "\t"), l1, t, self.block(d - 1, ind + "\t"), l2, t)
         return t + "%s.%s(%s)\n" % (self.pick(NAMES), self.pick(["add", "set"]), self.expr(1, 0, depth))
 
     def block(self, d, ind):
@@ -580,7 +584,7 @@ def family_multi_parens():
     index, slice, composite / slice / map literal elements, nested calls; the printer collapses ((x)) and its blank decisions
     depend on the depth it reaches the operand with."""
     out = []
-    cores = ["a+b", "a*b", "a+b*c", "a-b", "a<<b", "a&&b", "-a"]
+    cores = ["a+b", "a*b", "a+b*c", "-a"]
     for core in cores:
         for np in (1, 2, 3):
             pe = "(" * np + core + ")" * np
